@@ -49,6 +49,8 @@ impl Decode<'_> for SocketAddr {
 impl Encode for SocketAddr {
 //@item stun_rs :: mod attributes > mod address_port > impl Encode for SocketAddr > fn encode
 //@tags C01 C02 C14
+//@prefix
+    #[verifier::spinoff_prover]
 //@after "buffer[4..8].clone_from_slice(&ip.octets());"
     proof {
         assert(buffer@.subrange(2, 4) == be16_seq(self.port as int));
